@@ -271,6 +271,82 @@ Proof. exact (KScan_equiv F ff fpos). Qed.
 Theorem C42_ACLLog_equiv_partial : forall count, 0 < count -> same (MACLLog count).
 Proof. exact (ACLLog_equiv F ff fpos). Qed.
 
+(** ---- second batch of methods ---- *)
+Theorem C42_ZPop_equiv : forall max key count, same (MZPop max key count).
+Proof. exact (ZPop_equiv F ff fpos). Qed.
+
+Theorem C42_ZRangePlain_equiv : forall rev ws key start stop, same (MZRangePlain rev ws key start stop).
+Proof. exact (ZRangePlain_equiv F ff fpos). Qed.
+
+Theorem C42_BPop_equiv : forall w timeout keys, same (MBPop w timeout keys).
+Proof. exact (BPop_equiv F ff fpos). Qed.
+
+Theorem C42_BRPopLPush_equiv : forall src dst timeout, same (MBRPopLPush src dst timeout).
+Proof. exact (BRPopLPush_equiv F ff fpos). Qed.
+
+Theorem C42_LMove_equiv : forall src dst srcpos dstpos, same (MLMove src dst srcpos dstpos).
+Proof. exact (LMove_equiv F ff fpos). Qed.
+
+Theorem C42_BLMove_equiv : forall src dst srcpos dstpos timeout, same (MBLMove src dst srcpos dstpos timeout).
+Proof. exact (BLMove_equiv F ff fpos). Qed.
+
+Theorem C42_XRangeCmd_equiv : forall rev stream a b count, same (MXRangeCmd rev stream a b count).
+Proof. exact (XRangeCmd_equiv F ff fpos). Qed.
+
+Theorem C42_XGroupCreate_equiv : forall mk stream group start, same (MXGroupCreate mk stream group start).
+Proof. exact (XGroupCreate_equiv F ff fpos). Qed.
+
+Theorem C42_XAck_equiv : forall stream group ids, same (MXAck stream group ids).
+Proof. exact (XAck_equiv F ff fpos). Qed.
+
+Theorem C42_XDel_equiv : forall stream ids, same (MXDel stream ids).
+Proof. exact (XDel_equiv F ff fpos). Qed.
+
+Theorem C42_Eval_equiv : forall w script keys args, same (MEval w script keys args).
+Proof. exact (Eval_equiv F ff fpos). Qed.
+
+Theorem C42_PopCount_equiv : forall w key count, same (MPopCount w key count).
+Proof. exact (PopCount_equiv F ff fpos). Qed.
+
+Theorem C42_ZRandMember_equiv : forall ws key count, same (MZRandMember ws key count).
+Proof. exact (ZRandMember_equiv F ff fpos). Qed.
+
+Theorem C42_InterCard_equiv : forall zset limit keys, same (MInterCard zset limit keys).
+Proof. exact (InterCard_equiv F ff fpos). Qed.
+
+Theorem C42_SlowLogGet_equiv : forall num, same (MSlowLogGet num).
+Proof. exact (SlowLogGet_equiv F ff fpos). Qed.
+
+Theorem C42_FunctionList_equiv : forall pattern withcode, same (MFunctionList pattern withcode).
+Proof. exact (FunctionList_equiv F ff fpos). Qed.
+
+(** ClientPause: as Migrate — the adapter prints seconds (formatSec) where go-redis and CLIENT PAUSE use milliseconds;
+    TestPipeliner pins ["CLIENT","PAUSE","1"] for one second. *)
+Theorem C42_ClientPause_characterised : forall dur, same (MClientPause dur) <-> a_format_sec dur = a_format_ms dur.
+Proof. exact (ClientPause_iff F ff fpos). Qed.
+Theorem C42_ClientPause_equiv_partial : forall dur, a_format_sec dur = a_format_ms dur -> same (MClientPause dur).
+Proof. intros. apply C42_ClientPause_characterised. assumption. Qed.
+Theorem C42_ClientPause_refuted : exists dur, ~ same (MClientPause dur).
+Proof. exists 1000000000. intro H. apply C42_ClientPause_characterised in H. vm_compute in H. discriminate. Qed.
+
+(** GeoDist: go-redis passes the unit through ("" = km); the adapter panics unless it is "", m, km, mi, ft in any letter
+    case (adapter_test.go "should panic on invalid unit in GeoDist" pins it). *)
+Theorem C42_GeoDist_equiv_partial : forall key m1 m2 unit, valid_unit unit -> same (MGeoDist key m1 m2 unit).
+Proof. exact (GeoDist_equiv F ff fpos). Qed.
+Theorem C42_GeoDist_characterised : forall key m1 m2 unit, same (MGeoDist key m1 m2 unit) <-> valid_unit unit.
+Proof. exact (GeoDist_iff F ff fpos). Qed.
+Theorem C42_GeoDist_refuted : exists key m1 m2 unit, ~ same (MGeoDist key m1 m2 unit).
+Proof.
+  exists (bs "k"), (bs "a"), (bs "b"), (bs "yd"). intro H. apply C42_GeoDist_characterised in H.
+  destruct H as [H|[H|[H|[H|H]]]]; vm_compute in H; discriminate.
+Qed.
+
+(** ZMPop / BZMPop: as LMPop — claimed for count > 0. *)
+Theorem C42_ZMPop_equiv_partial : forall order count keys, 0 < count -> same (MZMPop order count keys).
+Proof. exact (ZMPop_equiv F ff fpos). Qed.
+Theorem C42_BZMPop_equiv_partial : forall timeout order count keys, 0 < count -> same (MBZMPop timeout order count keys).
+Proof. exact (BZMPop_equiv F ff fpos). Qed.
+
 (** ---- every listed method, all arguments in the claimed domain ---- *)
 Theorem C42_all_methods : forall c, in_domain F c -> same c.
 Proof. exact (all_methods_equiv F ff fpos). Qed.
@@ -343,6 +419,30 @@ Print Assumptions C42_BitPosSpan_equiv_partial.
 Print Assumptions C42_LMPop_equiv_partial.
 Print Assumptions C42_BLMPop_equiv_partial.
 Print Assumptions C42_all_methods.
+Print Assumptions C42_ZPop_equiv.
+Print Assumptions C42_ZRangePlain_equiv.
+Print Assumptions C42_BPop_equiv.
+Print Assumptions C42_BRPopLPush_equiv.
+Print Assumptions C42_LMove_equiv.
+Print Assumptions C42_BLMove_equiv.
+Print Assumptions C42_XRangeCmd_equiv.
+Print Assumptions C42_XGroupCreate_equiv.
+Print Assumptions C42_XAck_equiv.
+Print Assumptions C42_XDel_equiv.
+Print Assumptions C42_Eval_equiv.
+Print Assumptions C42_PopCount_equiv.
+Print Assumptions C42_ZRandMember_equiv.
+Print Assumptions C42_InterCard_equiv.
+Print Assumptions C42_SlowLogGet_equiv.
+Print Assumptions C42_FunctionList_equiv.
+Print Assumptions C42_ClientPause_characterised.
+Print Assumptions C42_ClientPause_equiv_partial.
+Print Assumptions C42_ClientPause_refuted.
+Print Assumptions C42_GeoDist_equiv_partial.
+Print Assumptions C42_GeoDist_characterised.
+Print Assumptions C42_GeoDist_refuted.
+Print Assumptions C42_ZMPop_equiv_partial.
+Print Assumptions C42_BZMPop_equiv_partial.
 Print Assumptions C42_GetEx_equiv_partial.
 Print Assumptions C42_GetEx_characterised.
 Print Assumptions C42_GetEx_refuted.
